@@ -351,6 +351,12 @@ class Translator:
         ops = [GetOperand(v, i) for i in range(n)]
         t = TypeOf(v); ct = self.ctype(t)
         A = lambda i: self.val(ops[i])
+        if op == 'mul' and getattr(self, 'hook_arith', False) and not is_const and GetIntTypeWidth(t) in (32, 64) \
+                and GetValueKind(ops[0]) != VK['ConstantInt'] and GetValueKind(ops[1]) != VK['ConstantInt']:
+            return '__verif_mul%d(%s, %s)' % (GetIntTypeWidth(t), A(0), A(1))
+        if op in ('udiv', 'urem') and getattr(self, 'hook_arith', False) and not is_const and GetIntTypeWidth(t) in (32, 64) \
+                and GetValueKind(ops[1]) != VK['ConstantInt']:
+            return '(__verif_divcheck(%s != 0), __verif_%s%d(%s, %s))' % (A(1), op, GetIntTypeWidth(t), A(0), A(1))
         if op in ('add', 'sub', 'mul', 'and', 'or', 'xor'):
             c = {'add': '+', 'sub': '-', 'mul': '*', 'and': '&', 'or': '|', 'xor': '^'}[op]
             return self.mask(t, '(%s)%s %s (%s)%s' % (ct, A(0), c, ct, A(1)))
@@ -409,7 +415,11 @@ class Translator:
         if op in ('fptosi',): return self.mask(t, '(%s)%s' % (self.sgn(t), A(0)))
         if op == 'uitofp': return '((%s)%s)' % (ct, A(0))
         if op == 'sitofp': return '((%s)%s)' % (ct, self.sval(ops[0]))
-        if op in ('fptrunc', 'fpext'): return '((%s)%s)' % (ct, A(0))
+        if op in ('fptrunc', 'fpext'):
+            st = self.ctype(TypeOf(ops[0]))
+            if (st, ct) == ('double', 'float'): return '__verif_d2f(%s)' % A(0)    # x86 NaN payload rule, see rt
+            if (st, ct) == ('float', 'double'): return '__verif_f2d(%s)' % A(0)
+            return '((%s)%s)' % (ct, A(0))
         if op == 'ptrtoint': return self.mask(t, '(u64)%s' % A(0))
         if op == 'inttoptr': return '((%s)(u64)%s)' % (ct, A(0))
         if op == 'bitcast':
@@ -760,9 +770,11 @@ if __name__ == '__main__':
     ap.add_argument('ll'); ap.add_argument('outbase')
     ap.add_argument('--inert', default='')
     ap.add_argument('--lifetime-heap', action='store_true')
+    ap.add_argument('--hook-arith', action='store_true', help='route non-constant 32/64-bit mul/udiv/urem through the memoising rt functions')
     a = ap.parse_args()
     tr = Translator(a.ll)
     tr.lifetime_heap = a.lifetime_heap
+    tr.hook_arith = a.hook_arith
     inert = set(x for x in a.inert.split(';;') if x)
     c, h = tr.run(inert)
     open(a.outbase + '.c', 'w').write(c)
